@@ -740,4 +740,154 @@ theorem init_inv (cfg : Cfg) (anc : Blk) (target npeers : Nat) :
   · constructor <;> simp [St.init]
 
 end
+/-! ## P2P chunk receiver -/
+
+def RInv (r : Recv) : Prop := r.got.map (·.hash) = r.want.take r.got.length
+
+theorem recvAdd_inv (want : List Nat) (big : Blk → Bool) : ∀ (blocks got : List Blk),
+    got.map (·.hash) = want.take got.length →
+    (recvAdd want big got blocks).1.map (·.hash) = want.take (recvAdd want big got blocks).1.length := by
+  intro blocks
+  induction blocks with
+  | nil => intro got h; simpa [recvAdd] using h
+  | cons b r ih =>
+    intro got h
+    simp only [recvAdd]
+    split
+    · exact h
+    · rename_i hw hget
+      split
+      · exact h
+      · rename_i hne
+        split
+        · exact h
+        · apply ih
+          have hb : hw = b.hash := by simpa using hne
+          have hlt : got.length < want.length := by
+            have := List.getElem?_eq_some_iff.mp hget
+            exact this.1
+          simp [h, List.take_add_one, hget, hb]
+
+theorem receive_inv (r : Recv) (big : Blk → Bool) (p : Part) (h : RInv r) : RInv (r.receive big p).1 := by
+  unfold Recv.receive
+  split
+  · exact h
+  · exact h
+  · split
+    · exact h
+    · split
+      · exact h
+      · split
+        · exact h
+        · have := recvAdd_inv r.want big p.blocks r.got h
+          split
+          · rename_i got e heq
+            rw [heq] at this
+            exact this
+          · rename_i got heq
+            rw [heq] at this
+            split
+            · exact this
+            · split <;> exact this
+
+theorem receive_rsp (r : Recv) (big : Blk → Bool) (p : Part) (h : RInv r) (blocks : List Blk)
+    (ho : (r.receive big p).2 = .rsp blocks) : blocks.map (·.hash) = r.want := by
+  unfold Recv.receive at ho
+  split at ho
+  · simp at ho
+  · simp at ho
+  · split at ho
+    · simp at ho
+    · split at ho
+      · simp at ho
+      · split at ho
+        · simp at ho
+        · have hinv := recvAdd_inv r.want big p.blocks r.got h
+          split at ho
+          · simp at ho
+          · rename_i got heq
+            rw [heq] at hinv
+            simp only at hinv
+            split at ho
+            · simp at ho
+            · split at ho
+              · simp at ho
+              · simp at ho
+                subst ho
+                rw [hinv]
+                apply List.take_of_length_le
+                omega
+
+theorem receive_want (r : Recv) (big : Blk → Bool) (p : Part) : (r.receive big p).1.want = r.want := by
+  unfold Recv.receive
+  repeat' split
+  all_goals rfl
+
+theorem receive_not_waiting (r : Recv) (big : Blk → Bool) (p : Part) (h : r.status ≠ .waiting) :
+    r.receive big p = (r, .nothing) := by
+  unfold Recv.receive
+  split
+  · rfl
+  · rfl
+  · rename_i hw; exact absurd hw h
+
+theorem receive_out_status (r : Recv) (big : Blk → Bool) (p : Part) :
+    (r.receive big p).2 ≠ .nothing → (r.receive big p).1.status ≠ .waiting := by
+  by_cases hw : r.status = .waiting
+  · unfold Recv.receive
+    simp only [hw]
+    repeat' split
+    all_goals simp
+  · rw [receive_not_waiting r big p hw]; simp
+
+/-- Number of messages sent to the syncer. -/
+def answers : List RecvOut → Nat
+  | [] => 0
+  | .nothing :: r => answers r
+  | _ :: r => answers r + 1
+
+/-- Whatever parts arrive: every chunk the receiver hands to the syncer is exactly the requested
+ids in order, and it answers at most once. -/
+theorem feed_spec (big : Blk → Bool) : ∀ (parts : List Part) (r : Recv), RInv r →
+    (∀ blocks, RecvOut.rsp blocks ∈ (Recv.feed big r parts).2 → blocks.map (·.hash) = r.want) ∧
+    answers (Recv.feed big r parts).2 ≤ (if r.status = .waiting then 1 else 0) := by
+  intro parts
+  induction parts with
+  | nil => intro r _; simp [Recv.feed, answers]
+  | cons p ps ih =>
+    intro r hr
+    simp only [Recv.feed]
+    have hinv := receive_inv r big p hr
+    have hwant := receive_want r big p
+    have hrsp := receive_rsp r big p hr
+    have hst := receive_out_status r big p
+    have hnw := receive_not_waiting r big p
+    generalize r.receive big p = x at hinv hwant hrsp hst hnw
+    obtain ⟨r1, o⟩ := x
+    simp only at hinv hwant hrsp hst hnw
+    obtain ⟨ih1, ih2⟩ := ih r1 hinv
+    constructor
+    · intro blocks hb
+      simp at hb
+      rcases hb with rfl | hb
+      · exact hrsp blocks rfl
+      · rw [← hwant]; exact ih1 blocks hb
+    · by_cases hw : r.status = .waiting
+      · simp only [hw, ↓reduceIte]
+        by_cases ho : o = .nothing
+        · subst ho
+          simp only [answers]
+          split at ih2 <;> omega
+        · have := hst ho
+          simp [this] at ih2
+          cases o with
+          | nothing => exact absurd rfl ho
+          | rsp b => simp only [answers]; omega
+          | rspErr e => simp only [answers]; omega
+      · have := hnw hw
+        simp at this
+        obtain ⟨rfl, rfl⟩ := this
+        simp [hw] at ih2 ⊢
+        simpa [answers] using ih2
+
 end Aergo.Sync
